@@ -153,6 +153,42 @@ func TestVerifC08(t *testing.T) {
 		c08Initial(o, 63, uint32(n), ren[:n], false)
 	}
 	c08Initial(o, 63, limit, ren, false) // at the limit, short stream
+	// damage that comes only AFTER a well-formed "connection attempt: success" event: the notification is malformed all
+	// the same.  Stray bytes after the data parameter and inside it, a following parameter whose declared length overruns
+	// the buffer, and every corruption / cut of a notification that carries further events after the attempt event.
+	for n := 1; n <= 5; n++ {
+		junk := make([]byte, n)
+		for i := range junk {
+			junk[i] = byte(rng.next())
+		}
+		after := append(append([]byte{}, ren...), junk...)
+		c08Initial(o, 63, uint32(len(after)), after, false)
+		inside := append(append([]byte{}, ren...), junk...)
+		binary.BigEndian.PutUint16(inside[2:], uint16(len(inside)))
+		c08Initial(o, 63, uint32(len(inside)), inside, false)
+	}
+	for _, tail := range [][]byte{{0x01, 0x01, 0x00, 0x20}, {0x01, 0x01, 0x00, 0x03}, {0x01, 0x01, 0xff, 0xff}, {0x03, 0xff, 0x00, 0x08, 1, 2, 3, 4},
+		{0x00, 0xf6, 0x00, 0x04}, {0x01, 0x1f, 0x00, 0x08, 0, 0, 0, 1}, {0x81, 0, 1}} {
+		inside := append(append([]byte{}, ren...), tail...)
+		binary.BigEndian.PutUint16(inside[2:], uint16(len(inside)))
+		c08Initial(o, 63, uint32(len(inside)), inside, false)
+		after := append(append([]byte{}, ren...), tail...)
+		c08Initial(o, 63, uint32(len(after)), after, false)
+	}
+	for i := len(ren); i < len(twoEvents); i++ {
+		for _, x := range []byte{0x01, 0x04, 0x80, 0xff} {
+			q := append([]byte{}, twoEvents...)
+			q[i] ^= x
+			c08Initial(o, 63, uint32(len(q)), q, false)
+		}
+	}
+	for n := len(ren); n < len(twoEvents); n++ {
+		q := append([]byte{}, twoEvents[:n]...) // cut inside the second event; the data parameter still claims the full length
+		c08Initial(o, 63, uint32(n), q, false)
+		q2 := append([]byte{}, twoEvents[:n]...)
+		binary.BigEndian.PutUint16(q2[2:], uint16(n)) // … and with the data parameter's length adjusted to the cut
+		c08Initial(o, 63, uint32(n), q2, false)
+	}
 	// no message: EOF at every offset of the header, and a silent peer (timeout)
 	for n := 0; n < 10; n++ {
 		f := vframe{ver: 1, typ: 63, id: 0, payload: ren}.bytes()
@@ -165,7 +201,29 @@ func TestVerifC08(t *testing.T) {
 	o.line("initial none", c08Check([]byte{4, 63, 0, 0, 0, 9, 0, 0, 0, 0}, false))
 
 	// (2) the whole Connect
-	for _, s := range c08Scripts(types) {
+	scripts := c08Scripts(types)
+	// setup that fails after the writer has started (negotiation fails) with many parked callers, repeated: whatever the
+	// schedule between Connect's return and the callers' wake-up, no caller's request may reach the wire
+	reps := 40
+	if vthorough() {
+		reps = 400
+	}
+	for i := 0; i < reps; i++ {
+		for _, fail := range []string{"ps:12:0:5", "ps:100:0:100", "ps:56:0:18 w:2 ps:57:1:100", "ps:56:0:18 w:2 ps:12:1:5"} {
+			sc := "new:1"
+			res := ""
+			for c := 1; c <= 8; c++ {
+				if c%4 == 0 {
+					sc += fmt.Sprintf(" nw:%d:2:%d", c, 1000+c)
+				} else {
+					sc += fmt.Sprintf(" call:%d:2:%d", c, 1000+c)
+				}
+				res += fmt.Sprintf(" r:%d", c)
+			}
+			scripts = append(scripts, sc+" spin:6 z start pf:63:0:1:0 w:1 "+fail+" rc"+res)
+		}
+	}
+	for _, s := range scripts {
 		if ltsAbort() {
 			break
 		}
